@@ -7,7 +7,7 @@ from typing import Any, Dict, FrozenSet, List, Optional, Tuple
 
 from .frontend import AnalysisError, ClassInfo, NotConst, norm
 from .values import (ALL_KINDS, ANY_VALUE_KINDS, KINDS, META_KINDS, NODE_KINDS, Frag, SBool, SBound, SClass, SDict,
-                     SExtern, SFunc, SInt, SList, SNew, SObj, SOpaque, SSplat, SStr, SSuper, SUnknown, Sym, TypeRef,
+                     SExtern, SFunc, SGen, SInt, SList, SNew, SObj, SOpaque, SSplat, SStr, SSuper, SUnknown, Sym, TypeRef,
                      Unmodelled, _ABCS, _BUILTIN_TYPES, _NOVAL, kinds_of_pyvalue, lit, short)
 
 _PURE_STR_METHODS = {"lower", "upper", "strip", "lstrip", "rstrip", "split", "rsplit", "replace", "startswith",
@@ -32,7 +32,10 @@ class CallMixin:
         args: List[Any] = []
         for a in e.args:
             if isinstance(a, ast.Starred):
-                args.extend(self.splat(self.eval(a.value), a))
+                sv = self.eval(a.value)
+                if isinstance(sv, SGen):
+                    sv = self.materialise(sv, a)     # f(*gen): the call receives all items, so the generator runs to its end first
+                args.extend(self.splat(sv, a))
             else:
                 args.append(self.eval(a))
         kwargs: Dict[str, Any] = {}
@@ -54,6 +57,8 @@ class CallMixin:
     def call(self, f: Any, args: List[Any], kwargs: Dict[str, Any], node: Optional[ast.AST] = None,
              dstar: Optional[List[Any]] = None) -> Any:
         dstar = dstar or []
+        if any(isinstance(a, SGen) for a in args):
+            args = self.consume_generators(f, args, node)
         if isinstance(f, SFunc):
             return self.call_function(f, args, kwargs, node=node, dstar=dstar)
         if isinstance(f, SClass):
@@ -111,6 +116,12 @@ class CallMixin:
             pass
         if f.self_obj is not None and binds is not None and fn.args.args:
             env.setdefault(fn.args.args[0].arg, f.self_obj)
+        if is_generator(fn):
+            if top:
+                raise self.unmodelled("generator function as analysis entry point", node)
+            from .values import SGen
+            run.effect("gen", f, None, list(args), node)
+            return SGen(f, env)
         fr = Frame(f, env)
         self.frames.append(fr)
         run.depth += 1
@@ -128,6 +139,61 @@ class CallMixin:
             run.call_stack.pop()
             run.depth -= 1
             self.frames.pop()
+
+    _EAGER_TYPES = (list, tuple, set, frozenset, dict, sorted)
+
+    def consume_generators(self, f: Any, args: List[Any], node: Optional[ast.AST]) -> List[Any]:
+        """Generator arguments of consumers that build a fresh object from all items (list(g), sorted(g), sep.join(g), ...) are
+        run to their end first; list.extend(g) / list += g append while the generator is still running and are modelled so."""
+        eager = False
+        if isinstance(f, TypeRef) and f.py in (list, tuple, set, frozenset, dict):
+            eager = True
+        if isinstance(f, SExtern) and f.mod == "builtins" and f.name in ("sorted", "any", "all", "sum", "min", "max", "len", "enumerate", "reversed", "zip", "map", "filter", "iter", "next"):
+            eager = True
+        if isinstance(f, SBound) and f.name == "join":
+            eager = True
+        if isinstance(f, SBound) and f.name in ("extend", "__iadd__") and len(args) == 1:
+            return [self.lazy_items(args[0], node)]
+        if eager:
+            return [self.materialise(a, node) if isinstance(a, SGen) else a for a in args]
+        return args
+
+    def lazy_items(self, gen: Any, node: Optional[ast.AST]) -> Any:
+        """The items of a generator consumed by list.extend: same list as materialise(), marked as produced lazily."""
+        v = self.materialise(gen, node)
+        if isinstance(v, (SList, SObj)):
+            v.__dict__["lazy_generator"] = gen
+        return v
+
+    def run_generator(self, gen: Any, on_yield: Any, node: Optional[ast.AST] = None) -> None:
+        """Run the generator's body to completion, calling on_yield(value) at every `yield` (in program order)."""
+        from .eval_expr import Frame
+        from .interp import _Return
+        run = self.run
+        f = gen.func
+        if run.depth >= run.cfg.max_depth or f.qual in run.call_stack:
+            raise self.unmodelled(f"recursive generator {f.qual}", node)
+        fr = Frame(f, dict(gen.env))
+        self.frames.append(fr)
+        self.yield_handlers.append(on_yield)
+        run.depth += 1
+        run.call_stack.append(f.qual)
+        try:
+            self.exec_block(f.node.body)
+        except _Return:
+            pass
+        finally:
+            run.call_stack.pop()
+            run.depth -= 1
+            self.yield_handlers.pop()
+            self.frames.pop()
+
+    def materialise(self, gen: Any, node: Optional[ast.AST] = None) -> Any:
+        """list(<generator>): the generator function rewritten to collect what it yields (exact when the consumer builds a
+        fresh object from all items: list(), tuple(), sorted(), "".join(), set(), dict())."""
+        tw = collecting_twin(gen.func.node)
+        f2 = SFunc(gen.func.mod, tw, gen.func.self_obj, getattr(gen.func, "cls", None), gen.func.closure, gen.func.qual)
+        return self.call_function(f2, [], {}, node=node, binds=dict(gen.env))
 
     def fill_defaults(self, f: SFunc, a: ast.arguments, env: Dict[str, Any]) -> None:
         from .eval_expr import Frame
@@ -1153,7 +1219,40 @@ def _is_dict_copy_idiom(fn: ast.FunctionDef) -> bool:
         if isinstance(n, ast.Call) and isinstance(n.func, ast.Attribute) and n.func.attr == "__new__":
             has_new = True
     rets = [n for n in ast.walk(fn) if isinstance(n, ast.Return)]
-    return has_comp and has_update and has_new and len(rets) == 1
+    if has_comp and has_update and has_new and len(rets) == 1:
+        return True
+    # the same copy written as a loop: for k, v in self.__dict__.items(): cp.__dict__[k] = copy(v)   (or setattr(cp, k, copy(v)))
+    dict_aliases = {t.id for n in ast.walk(fn) if isinstance(n, ast.Assign) and isinstance(n.value, ast.Attribute) and n.value.attr == "__dict__"
+                    and not (isinstance(n.value.value, ast.Name) and n.value.value.id == "self")
+                    for t in n.targets if isinstance(t, ast.Name)}
+    has_loop = False
+    for n in ast.walk(fn):
+        if not (isinstance(n, ast.For) and not n.orelse and len(n.body) == 1 and isinstance(n.target, ast.Tuple) and len(n.target.elts) == 2
+                and all(isinstance(e, ast.Name) for e in n.target.elts)):
+            continue
+        it = n.iter
+        if not (isinstance(it, ast.Call) and isinstance(it.func, ast.Attribute) and it.func.attr == "items" and not it.args
+                and isinstance(it.func.value, ast.Attribute) and it.func.value.attr == "__dict__"
+                and isinstance(it.func.value.value, ast.Name) and it.func.value.value.id == "self"):
+            continue
+        k, v = n.target.elts[0].id, n.target.elts[1].id  # type: ignore[attr-defined]
+
+        def _is_copy_of_v(e: ast.expr) -> bool:
+            return isinstance(e, ast.Call) and not e.keywords and len(e.args) == 1 and ast.unparse(e.func) in ("copy", "copy.copy") \
+                and isinstance(e.args[0], ast.Name) and e.args[0].id == v
+
+        st = n.body[0]
+        if isinstance(st, ast.Assign) and len(st.targets) == 1 and isinstance(st.targets[0], ast.Subscript) and _is_copy_of_v(st.value):
+            tg = st.targets[0]
+            base_ok = (isinstance(tg.value, ast.Attribute) and tg.value.attr == "__dict__" and not (isinstance(tg.value.value, ast.Name) and tg.value.value.id == "self")) \
+                or (isinstance(tg.value, ast.Name) and tg.value.id in dict_aliases)
+            if base_ok and isinstance(tg.slice, ast.Name) and tg.slice.id == k:
+                has_loop = True
+        if isinstance(st, ast.Expr) and isinstance(st.value, ast.Call) and isinstance(st.value.func, ast.Name) and st.value.func.id == "setattr" \
+                and len(st.value.args) == 3 and isinstance(st.value.args[0], ast.Name) and st.value.args[0].id != "self" \
+                and isinstance(st.value.args[1], ast.Name) and st.value.args[1].id == k and _is_copy_of_v(st.value.args[2]):
+            has_loop = True
+    return has_loop and has_new and len(rets) == 1
 
 
 _EXC = {"TypeError", "ValueError", "RuntimeError", "KeyError", "IndexError", "Exception", "NotImplementedError",
@@ -1199,3 +1298,81 @@ def _const_or(s: Any) -> Any:
 def _has_meta(s: str, mode: str) -> bool:
     chars = "&<>" + ("\"'\r\n" if mode == "attr" else "")
     return any(c in s for c in chars)
+
+
+_GEN_CACHE: Dict[int, bool] = {}
+_TWIN_CACHE: Dict[int, ast.FunctionDef] = {}
+
+
+def _own_nodes(fn: ast.AST):
+    """Nodes of a function body, not descending into nested functions / lambdas / classes."""
+    stack = list(getattr(fn, "body", []))
+    while stack:
+        n = stack.pop()
+        yield n
+        for c in ast.iter_child_nodes(n):
+            if isinstance(c, (ast.FunctionDef, ast.AsyncFunctionDef, ast.Lambda, ast.ClassDef)):
+                continue
+            stack.append(c)
+
+
+def is_generator(fn: ast.AST) -> bool:
+    if not isinstance(fn, (ast.FunctionDef, ast.AsyncFunctionDef)):
+        return False
+    k = id(fn)
+    if k not in _GEN_CACHE:
+        _GEN_CACHE[k] = any(isinstance(n, (ast.Yield, ast.YieldFrom)) for n in _own_nodes(fn))
+    return _GEN_CACHE[k]
+
+
+class _Collect(ast.NodeTransformer):
+    def visit_FunctionDef(self, node: ast.FunctionDef) -> Any:
+        return node      # nested functions keep their own yields
+
+    visit_AsyncFunctionDef = visit_FunctionDef  # type: ignore[assignment]
+    visit_Lambda = visit_FunctionDef            # type: ignore[assignment]
+
+    def visit_Expr(self, node: ast.Expr) -> Any:
+        v = node.value
+        if isinstance(v, ast.Yield):
+            call = ast.Call(ast.Attribute(ast.Name("__yielded", ast.Load()), "append", ast.Load()), [v.value or ast.Constant(None)], [])
+            return ast.copy_location(ast.Expr(call), node)
+        if isinstance(v, ast.YieldFrom):
+            call = ast.Call(ast.Attribute(ast.Name("__yielded", ast.Load()), "extend", ast.Load()), [v.value], [])
+            return ast.copy_location(ast.Expr(call), node)
+        return node
+
+    def visit_Return(self, node: ast.Return) -> Any:
+        return ast.copy_location(ast.Return(ast.Name("__yielded", ast.Load())), node)
+
+
+def collecting_twin(fn: ast.FunctionDef) -> ast.FunctionDef:
+    """`def g(..): ... yield v ...`  ->  `def g(..): __yielded = []; ... __yielded.append(v) ...; return __yielded`."""
+    k = id(fn)
+    if k in _TWIN_CACHE:
+        return _TWIN_CACHE[k]
+    import copy as _copy
+    for n in _own_nodes(fn):
+        if isinstance(n, (ast.Yield, ast.YieldFrom)):
+            pass
+    tw = _copy.deepcopy(fn)
+    # a yield used as an expression value (x = yield v) is not supported
+    for n in _own_nodes(tw):
+        if isinstance(n, (ast.Yield, ast.YieldFrom)):
+            par_ok = False
+            for m in _own_nodes(tw):
+                if isinstance(m, ast.Expr) and m.value is n:
+                    par_ok = True
+            if not par_ok:
+                raise Unmodelled(f"{fn.name}: yield used as an expression")
+    tr = _Collect()
+    tw.body = [x for st in tw.body for x in ([tr.visit(st)] if True else [])]
+    pre = ast.Assign([ast.Name("__yielded", ast.Store())], ast.List([], ast.Load()))
+    post = ast.Return(ast.Name("__yielded", ast.Load()))
+    tw.body = [pre] + tw.body + [post]
+    ast.copy_location(pre, fn)
+    ast.copy_location(post, fn)
+    ast.fix_missing_locations(tw)
+    _GEN_CACHE[id(tw)] = False
+    _TWIN_CACHE[k] = tw
+    return tw
